@@ -13,8 +13,10 @@
 package c10
 
 import (
+	"flag"
 	"fmt"
 	"sort"
+	"strconv"
 	"strings"
 	"testing"
 
@@ -24,7 +26,19 @@ import (
 	"verifharness/kit"
 )
 
-func TestMain(m *testing.M) { kit.Main(m) }
+// baseChecks is the per-shard case count handed to the binary (-rapid.checks);
+// it is only used to turn an absolute case target into a kit.Opt.Weight.
+var baseChecks = 100
+
+func TestMain(m *testing.M) {
+	flag.Parse()
+	if f := flag.Lookup("rapid.checks"); f != nil {
+		if n, err := strconv.Atoi(f.Value.String()); err == nil && n > 0 {
+			baseChecks = n
+		}
+	}
+	kit.Main(m)
+}
 
 // ---- a fully harness-side Ord (never touches fp.CompareFunc / fp.LessFunc) ------
 
@@ -85,12 +99,40 @@ type dom[T any] struct {
 }
 
 type inst[T any] struct {
-	name string
-	o    fp.Ord[T]
-	d    dom[T]
+	name   string
+	o      fp.Ord[T]
+	d      dom[T]
+	weight float64 // kit.Opt.Weight of every sub-check of this instance (0 = full case count)
 }
 
-func mk[T any](name string, o fp.Ord[T], d dom[T]) inst[T] { return inst[T]{name, o, d} }
+func mk[T any](name string, o fp.Ord[T], d dom[T]) inst[T] { return inst[T]{name: name, o: o, d: d} }
+
+func (in inst[T]) weighted(w float64) inst[T] { in.weight = w; return in }
+
+// tupleWeight: one comparison by ord.TupleN costs time exponential in the
+// position of the first differing component (each level evaluates the order of
+// its tail up to three times: once for Eqv and once per direction of Less);
+// measured about 0.115 s per case at arity 21 with uniformly chosen positions,
+// halving with each arity below. Arities >= 14 therefore get an absolute case
+// target per shard that keeps a sub-check near 0.25 s (quick) / 8 s (thorough).
+func tupleWeight(arity int) float64 {
+	if arity < 14 {
+		return 0
+	}
+	cost := 0.115
+	for n := 21; n > arity; n-- {
+		cost /= 2
+	}
+	budget := 0.25
+	if kit.Thorough() {
+		budget = 8
+	}
+	w := budget / cost / float64(baseChecks)
+	if w >= 1 {
+		return 0
+	}
+	return w
+}
 
 // withRef replaces the reference order (used for Reversed / ThenComparing / key based instances).
 func (d dom[T]) withRef(ref func(a, b T) int, ntRule string) dom[T] {
@@ -163,10 +205,11 @@ func runLaws[T any](t *testing.T, in inst[T]) {
 	t.Helper()
 	d := in.d
 	sig := func(law string) string { return "C10|" + in.name + "|" + law }
+	opt := kit.Opt{Weight: in.weight, MinChecks: 1}
 	pairRule := "pair (a,b): a from the instance generator, b = near-copy of a (copy / one component changed / two changed in opposite directions / truncated / extended; 70%) or fresh (30%), order swapped at random; non-trivial iff " + d.ntRule + "; distinct by printed pair"
 	pd := func(a, b T) string { return d.show(a) + " | " + d.show(b) }
 
-	kit.Check(t, in.name+"/trichotomy", pairRule+"; law: exactly one of Less(a,b), Less(b,a), Eqv(a,b); Eqv symmetric; Less irreflexive, Eqv reflexive", kit.Opt{}, func(rt *rapid.T, rec *kit.Rec) {
+	kit.Check(t, in.name+"/trichotomy", pairRule+"; law: exactly one of Less(a,b), Less(b,a), Eqv(a,b); Eqv symmetric; Less irreflexive, Eqv reflexive", opt, func(rt *rapid.T, rec *kit.Rec) {
 		a, b := drawPair(rt, d, rec)
 		rec.Case(d.nt(a, b), pd(a, b))
 		var lab, lba, e, eba, laa, eaa bool
@@ -191,7 +234,7 @@ func runLaws[T any](t *testing.T, in inst[T]) {
 		}
 	})
 
-	kit.Check(t, in.name+"/transitive", "triple: a from the generator, b near-copy of a or fresh, c near-copy of b / of a / fresh; half of the triples sorted into a chain by the reference order; law checked on all 6 arrangements (x,y,z): Less(x,y) && Less(y,z) => Less(x,z), and Eqv(x,y) && Eqv(y,z) => Eqv(x,z); non-trivial iff the three values are pairwise different by the reference order; distinct by printed triple", kit.Opt{}, func(rt *rapid.T, rec *kit.Rec) {
+	kit.Check(t, in.name+"/transitive", "triple: a from the generator, b near-copy of a or fresh, c near-copy of b / of a / fresh; half of the triples sorted into a chain by the reference order; law checked on all 6 arrangements (x,y,z): Less(x,y) && Less(y,z) => Less(x,z), and Eqv(x,y) && Eqv(y,z) => Eqv(x,z); non-trivial iff the three values are pairwise different by the reference order; distinct by printed triple", opt, func(rt *rapid.T, rec *kit.Rec) {
 		v := drawTriple(rt, d, rec)
 		rec.Case(d.ref(v[0], v[1]) != 0 && d.ref(v[1], v[2]) != 0 && d.ref(v[0], v[2]) != 0, d.show(v[0])+" | "+d.show(v[1])+" | "+d.show(v[2]))
 		var less, eqv [3][3]bool
@@ -214,7 +257,7 @@ func runLaws[T any](t *testing.T, in inst[T]) {
 		}
 	})
 
-	kit.Check(t, in.name+"/compare", pairRule+"; law: Compare(a,b)<0 iff Less(a,b), ==0 iff Eqv(a,b), >0 iff Less(b,a); LessEq(a,b) = Less(a,b) || Eqv(a,b)", kit.Opt{}, func(rt *rapid.T, rec *kit.Rec) {
+	kit.Check(t, in.name+"/compare", pairRule+"; law: Compare(a,b)<0 iff Less(a,b), ==0 iff Eqv(a,b), >0 iff Less(b,a); LessEq(a,b) = Less(a,b) || Eqv(a,b)", opt, func(rt *rapid.T, rec *kit.Rec) {
 		a, b := drawPair(rt, d, rec)
 		rec.Case(d.nt(a, b), pd(a, b))
 		var c int
@@ -230,7 +273,7 @@ func runLaws[T any](t *testing.T, in inst[T]) {
 		}
 	})
 
-	kit.Check(t, in.name+"/minmax", pairRule+"; law: Min(a,b) and Max(a,b) are one of the two arguments; neither argument is Less than Min; Max is Less than neither argument (which of two equivalent arguments is returned is not demanded)", kit.Opt{}, func(rt *rapid.T, rec *kit.Rec) {
+	kit.Check(t, in.name+"/minmax", pairRule+"; law: Min(a,b) and Max(a,b) are one of the two arguments; neither argument is Less than Min; Max is Less than neither argument (which of two equivalent arguments is returned is not demanded)", opt, func(rt *rapid.T, rec *kit.Rec) {
 		a, b := drawPair(rt, d, rec)
 		rec.Case(d.nt(a, b), pd(a, b))
 		var mn, mx T
@@ -254,7 +297,7 @@ func runLaws[T any](t *testing.T, in inst[T]) {
 		}
 	})
 
-	kit.Check(t, in.name+"/reference", pairRule+"; law: Less/Eqv/sign(Compare) equal the independently written reference order (lexicographic; None and nil first; Time by instant; key only for ContraMap style instances)", kit.Opt{}, func(rt *rapid.T, rec *kit.Rec) {
+	kit.Check(t, in.name+"/reference", pairRule+"; law: Less/Eqv/sign(Compare) equal the independently written reference order (lexicographic; None and nil first; Time by instant; key only for ContraMap style instances)", opt, func(rt *rapid.T, rec *kit.Rec) {
 		a, b := drawPair(rt, d, rec)
 		rec.Case(d.nt(a, b), pd(a, b))
 		want := d.ref(a, b)
@@ -268,7 +311,7 @@ func runLaws[T any](t *testing.T, in inst[T]) {
 		}
 	})
 
-	kit.Check(t, in.name+"/reversed", pairRule+"; law: r := o.Reversed(): r.Less(a,b) = o.Less(b,a), sign(r.Compare(a,b)) = -sign(o.Compare(a,b)), r.Eqv(a,b) = o.Eqv(a,b)", kit.Opt{}, func(rt *rapid.T, rec *kit.Rec) {
+	kit.Check(t, in.name+"/reversed", pairRule+"; law: r := o.Reversed(): r.Less(a,b) = o.Less(b,a), sign(r.Compare(a,b)) = -sign(o.Compare(a,b)), r.Eqv(a,b) = o.Eqv(a,b)", opt, func(rt *rapid.T, rec *kit.Rec) {
 		a, b := drawPair(rt, d, rec)
 		rec.Case(d.nt(a, b), pd(a, b))
 		var rl, re, lba, e bool
@@ -288,7 +331,7 @@ func runLaws[T any](t *testing.T, in inst[T]) {
 	// (equal keys with different ids, same instant in different zones, -0/+0)
 	// and frequently disagrees with the primary on non-ties.
 	secCmp := func(a, b T) int { return strings.Compare(d.show(a), d.show(b)) }
-	kit.Check(t, in.name+"/thenComparing", pairRule+" (override of non-trivial: the reference ties a,b and their printed forms differ, or the reference does not tie them and the secondary orders them the other way); law: tc := o.ThenComparing(sec), sec = harness order on the printed form: if !o.Eqv(a,b) then tc agrees with o (Less, Eqv, sign of Compare) else tc agrees with sec", kit.Opt{}, func(rt *rapid.T, rec *kit.Rec) {
+	kit.Check(t, in.name+"/thenComparing", pairRule+" (override of non-trivial: the reference ties a,b and their printed forms differ, or the reference does not tie them and the secondary orders them the other way); law: tc := o.ThenComparing(sec), sec = harness order on the printed form: if !o.Eqv(a,b) then tc agrees with o (Less, Eqv, sign of Compare) else tc agrees with sec", opt, func(rt *rapid.T, rec *kit.Rec) {
 		a, b := drawPair(rt, d, rec)
 		sc := secCmp(a, b)
 		r := d.ref(a, b)
